@@ -136,13 +136,18 @@ CONSTANTS Mode,          \* "boot" | "its" | "ens" | "traj": the function whose 
           Gated,         \* names of the deviation classes that are not emitted (see above)
           S,             \* boot, its: states 0..S-1
           BootN,         \* boot: set of numbers of trajectories
-          BootMaxLen,    \*       row lengths 1..BootMaxLen
-          BootMaxTrials, \*       n_trials 0..BootMaxTrials
-          BootMaxLag,    \*       lag_time 1..BootMaxLag
+          BootMinLen,    \*       row lengths BootMinLen..BootMaxLen
+          BootMaxLen,
+          BootTrials,    \*       set of n_trials
+          BootLags,      \*       set of lag_time
+          BootSlidings,  \*       subset of BOOLEAN: sliding_window
+          BootNs,        \*       subset of {0, S}: max_n_states (0 = None)
           ItsFamily,     \* its: "all": one trajectory of ItsMinLen..ItsMaxLen frames, or two of 1..ItsPairLen frames;
           ItsMinLen,     \*      "rgs": one trajectory that uses all S states, states numbered in order of appearance
           ItsMaxLen,
-          ItsPairLen,    \*      0: no pairs
+          ItsPairLen,    \*      0: no pairs;  "runs": one trajectory Expand(pattern, run lengths), patterns
+          ItsPatternIds, \*      PatternCatalogue[ItsPatternIds], every run 1..ItsMaxRun frames long
+          ItsMaxRun,
           ItsLagIds,     \*      indices into LagCatalogue
           ItsNTimes,     \*      values of n_times (None == 1000000)
           ChainN,        \* ens, traj: number of states of the chain
@@ -157,9 +162,12 @@ VARIABLES inp,   \* the arguments of the call (a record, per Mode)
           i,     \* loop counter of the code
           loc,   \* local variables of the running function (a record)
           out,   \* the returned value, or [err |-> name of the exception]
-          ref    \* what the DEFINITION says about inp where it does not depend on the random source
+          ref,   \* what the DEFINITION says about inp where it does not depend on the random source
+          fired  \* vacuity control: the names of the actions taken on the way to this state (printed with every
+                 \* case; TLC's -coverage is not usable here: building its cost model for the nested rational
+                 \* determinant / quadratic-formula operators exhausts the heap before the run starts)
 
-vars == <<inp, pc, i, loc, out, ref>>
+vars == <<inp, pc, i, loc, out, ref, fired>>
 
 None == 1000000
 
@@ -232,10 +240,10 @@ FlattenTo(rows, k) == IF k = 0 THEN <<>> ELSE FlattenTo(rows, k - 1) \o rows[k]
 Flatten(rows) == FlattenTo(rows, Len(rows))
 Reshape(flat, n, w) == Fix([k \in 1..n |-> SubSeq(flat, (k - 1) * w + 1, k * w)])
 
-BootRows == UNION {[1..l -> 0..(S - 1)] : l \in 1..BootMaxLen}
+BootRows == UNION {[1..l -> 0..(S - 1)] : l \in BootMinLen..BootMaxLen}
 BootInputs == {[rows |-> rs, container |-> c, trials |-> k, lag |-> lg, sliding |-> sl, ns |-> ns] :
                   rs \in UNION {[1..n -> BootRows] : n \in BootN}, c \in {"ndarray", "ragged"},
-                  k \in 0..BootMaxTrials, lg \in 1..BootMaxLag, sl \in BOOLEAN, ns \in {0, S}}
+                  k \in BootTrials, lg \in BootLags, sl \in BootSlidings, ns \in BootNs}
 
 (* ============================================================================ *)
 (* (2) implied timescales                                                        *)
@@ -439,6 +447,12 @@ DefITS(r) ==
              ELSE ""
   IN [nt |-> DefNTimes(r), alts |-> alts, det |-> det, rows |-> rows, cls |-> cls]
 
+(* metastable trajectories (the ones with eigenvalues in (0, 1)): a pattern of states, each held for 1..ItsMaxRun frames *)
+PatternCatalogue == << <<0, 1>>, <<0, 1, 0>>, <<0, 1, 0, 1>>, <<0, 1, 2, 0>>, <<0, 1, 2, 1, 0>>, <<0, 1, 0, 2, 0>>,
+                       <<0, 2, 1, 0, 1, 2>> >>
+RECURSIVE ExpandTo(_, _, _)
+ExpandTo(pat, lens, k) == IF k = 0 THEN <<>> ELSE ExpandTo(pat, lens, k - 1) \o [m \in 1..lens[k] |-> pat[k]]
+Expand(pat, lens) == ExpandTo(pat, lens, Len(pat))
 IsRGS(q) == /\ q[1] = 0
             /\ \A k \in 2..Len(q) : q[k] <= Max({q[m] : m \in 1..(k - 1)}) + 1
             /\ {q[k] : k \in 1..Len(q)} = 0..(S - 1)
@@ -447,7 +461,10 @@ ItsTrajs ==
   THEN {<<q>> : q \in UNION {[1..l -> 0..(S - 1)] : l \in ItsMinLen..ItsMaxLen}}
        \cup (IF ItsPairLen = 0 THEN {}
              ELSE LET rs == UNION {[1..l -> 0..(S - 1)] : l \in 1..ItsPairLen} IN {<<a, b>> : a \in rs, b \in rs})
-  ELSE {<<q>> : q \in UNION {{x \in [1..l -> 0..(S - 1)] : IsRGS(x)} : l \in ItsMinLen..ItsMaxLen}}
+  ELSE IF ItsFamily = "rgs"
+  THEN {<<q>> : q \in UNION {{x \in [1..l -> 0..(S - 1)] : IsRGS(x)} : l \in ItsMinLen..ItsMaxLen}}
+  ELSE UNION {{<<Expand(PatternCatalogue[q], lens)>> : lens \in [1..Len(PatternCatalogue[q]) -> 1..ItsMaxRun]} :
+                 q \in ItsPatternIds}
 ItsInputs == {[trajs |-> ts, lags |-> LagCatalogue[li], method |-> m, sliding |-> sl, trim |-> tr, ntimes |-> nt] :
                  ts \in ItsTrajs, li \in ItsLagIds, m \in {"normalize", "transpose"}, sl \in BOOLEAN,
                  tr \in BOOLEAN, nt \in ItsNTimes}
@@ -540,6 +557,7 @@ Init == /\ inp \in Inputs
         /\ loc = [none |-> 0]
         /\ out = [none |-> 0]
         /\ ref = RefOf(inp)
+        /\ fired = {}
 
 (* ---- bootstrap ------------------------------------------------------------------------------- *)
 BN == Len(inp.rows)
@@ -548,20 +566,24 @@ B_Share == /\ pc = "boot"
            /\ loc' = [shared |-> Flatten(DataOf(inp)), shape |-> ShapeOf(inp), iis |-> <<>>, bdata |-> <<>>, res |-> <<>>]
            /\ i' = 0 /\ pc' = "b_draw"
            /\ UNCHANGED <<inp, out, ref>>
+           /\ fired' = fired \cup {"B_Share"}
 (* one element of rand_sampling_iis: np.random.choice(np.arange(n), n) -- ANY n indices, with replacement *)
 B_Draw == /\ pc = "b_draw" /\ i < inp.trials
           /\ \E d \in [1..BN -> 0..(BN - 1)] : loc' = [loc EXCEPT !.iis = Append(@, d)]
           /\ i' = i + 1
           /\ UNCHANGED <<inp, pc, out, ref>>
+          /\ fired' = fired \cup {"B_Draw"}
 (* mp.Pool(initializer=_init): bootstrap_data = np.frombuffer(shared).reshape(shape) *)
 B_PoolInit == /\ pc = "b_draw" /\ i = inp.trials /\ loc.shape[2] # None
               /\ loc' = [loc EXCEPT !.bdata = Reshape(loc.shared, loc.shape[1], loc.shape[2])]
               /\ i' = 0 /\ pc' = "b_strap"
               /\ UNCHANGED <<inp, out, ref>>
+              /\ fired' = fired \cup {"B_PoolInit"}
 (* shape (n, None): reshape raises TypeError in the initialiser (class boot-ragged-data) *)
 B_PoolInitRagged == /\ pc = "b_draw" /\ i = inp.trials /\ loc.shape[2] = None
                     /\ out' = [err |-> "TypeError"] /\ pc' = "done"
                     /\ UNCHANGED <<inp, i, loc, ref>>
+                    /\ fired' = fired \cup {"B_PoolInitRagged"}
 (* _single_strap: strap_func(bootstrap_data[rand_sampling_iis], **kwargs); both funcs of the driver at once *)
 B_Strap == /\ pc = "b_strap" /\ i < inp.trials
            /\ LET d == loc.iis[i + 1]
@@ -570,9 +592,11 @@ B_Strap == /\ pc = "b_strap" /\ i < inp.trials
                                                        C |-> CountMatrix(MaskAll(sample), inp.lag, inp.sliding, inp.ns)])]
            /\ i' = i + 1
            /\ UNCHANGED <<inp, pc, out, ref>>
+           /\ fired' = fired \cup {"B_Strap"}
 B_Return == /\ pc = "b_strap" /\ i = inp.trials
             /\ out' = [res |-> loc.res] /\ pc' = "done"
             /\ UNCHANGED <<inp, i, loc, ref>>
+            /\ fired' = fired \cup {"B_Return"}
 
 (* ---- implied_timescales ------------------------------------------------------------------------ *)
 (* n_states = assigns.max() + 1; the two `if`s on n_times; implied_times_list = [] *)
@@ -583,30 +607,36 @@ I_Enter == /\ pc = "its"
                          C |-> <<>>, T |-> <<>>, ev |-> <<>>]
            /\ i' = 1 /\ pc' = "i_counts"
            /\ UNCHANGED <<inp, out, ref>>
+           /\ fired' = fired \cup {"I_Enter"}
 (* calc_imp_times: C = assigns_to_counts(assigns, max_n_states=n_states, lag_time=t, sliding_window=..) *)
 I_Counts == /\ pc = "i_counts" /\ i <= Len(inp.lags)
             /\ loc' = [loc EXCEPT !.C = CountMatrix(inp.trajs, inp.lags[i], inp.sliding, loc.ns)]
             /\ pc' = IF inp.trim THEN "i_trim" ELSE "i_build"
             /\ UNCHANGED <<inp, i, out, ref>>
+            /\ fired' = fired \cup {"I_Counts"}
 (* mapping, C = trim_disconnected(C): any component of maximal population (argmax over scipy's numbering) *)
 I_Trim == /\ pc = "i_trim"
           /\ \E c \in MaxPop(loc.C) : loc' = [loc EXCEPT !.C = ExtractOf(loc.C, c)]
           /\ pc' = "i_build"
           /\ UNCHANGED <<inp, i, out, ref>>
+          /\ fired' = fired \cup {"I_Trim"}
 (* _, T, _ = method(C); n_times += 1 *)
 I_Build == /\ pc = "i_build"
            /\ loc' = [loc EXCEPT !.T = BuildT(loc.C, inp.method)]
            /\ pc' = "i_eig"
            /\ UNCHANGED <<inp, i, out, ref>>
+           /\ fired' = fired \cup {"I_Build"}
 (* eigenspectrum(T, n_eigs=n_times) raises ValueError for n_eigs < 2; `except ArpackNoConvergence` -> NameError *)
 I_EigErr == /\ pc = "i_eig" /\ loc.nt + 1 < 2
             /\ out' = [err |-> "NameError"] /\ pc' = "done"
             /\ UNCHANGED <<inp, i, loc, ref>>
+            /\ fired' = fired \cup {"I_EigErr"}
 (* e_vals, e_vecs = eigenspectrum(T, n_eigs=n_times): all eigenvalues, descending, the first n_times kept *)
 I_Eig == /\ pc = "i_eig" /\ loc.nt + 1 >= 2
          /\ loc' = [loc EXCEPT !.ev = Eigs(loc.T)]
          /\ pc' = "i_times"
          /\ UNCHANGED <<inp, i, out, ref>>
+         /\ fired' = fired \cup {"I_Eig"}
 (* imp_times = -lag_time / np.log(e_vals[1:]); implied_times_list.append(tscale) *)
 I_Times == /\ pc = "i_times"
            /\ LET m == MinOf(loc.nt + 1, Len(loc.T))
@@ -614,15 +644,18 @@ I_Times == /\ pc = "i_times"
               IN loc' = [loc EXCEPT !.rows = Append(@, row)]
            /\ i' = i + 1 /\ pc' = "i_counts"
            /\ UNCHANGED <<inp, out, ref>>
+           /\ fired' = fired \cup {"I_Times"}
 RowsRectangular(rows) == \A k \in 1..Len(rows) : Len(rows[k]) = Len(rows[1])
 (* return np.array(implied_times_list) *)
 I_Return == /\ pc = "i_counts" /\ i > Len(inp.lags) /\ RowsRectangular(loc.rows)
             /\ out' = [rows |-> loc.rows] /\ pc' = "done"
             /\ UNCHANGED <<inp, i, loc, ref>>
+            /\ fired' = fired \cup {"I_Return"}
 (* rows of different lengths: np.array raises ValueError (class its-ragged-rows) *)
 I_ReturnRagged == /\ pc = "i_counts" /\ i > Len(inp.lags) /\ ~RowsRectangular(loc.rows)
                   /\ out' = [err |-> "ValueError"] /\ pc' = "done"
                   /\ UNCHANGED <<inp, i, loc, ref>>
+                  /\ fired' = fired \cup {"I_ReturnRagged"}
 
 (* ---- synthetic_ensemble -------------------------------------------------------------------------- *)
 (* p = init_pops.copy(); observations = [p] or [p.dot(observable_per_state)] *)
@@ -631,16 +664,19 @@ E_Enter == /\ pc = "ens"
               IN loc' = [p |-> row, hist |-> <<Observe(inp, row)>>]
            /\ i' = 0 /\ pc' = "e_loop"
            /\ UNCHANGED <<inp, out, ref>>
+           /\ fired' = fired \cup {"E_Enter"}
 (* for i in range(n_steps-1): p = T_op.rmatvec(p); observations.append(..) *)
 E_Step == /\ pc = "e_loop" /\ i < inp.steps - 1
           /\ LET row == [v |-> VecMat(loc.p.v, inp.A), den |-> loc.p.den * inp.D]
              IN loc' = [p |-> row, hist |-> Append(loc.hist, Observe(inp, row))]
           /\ i' = i + 1
           /\ UNCHANGED <<inp, pc, out, ref>>
+          /\ fired' = fired \cup {"E_Step"}
 (* observations = np.array(observations); return p, observations *)
 E_Return == /\ pc = "e_loop" /\ i >= inp.steps - 1
             /\ out' = [final |-> loc.p, hist |-> loc.hist] /\ pc' = "done"
             /\ UNCHANGED <<inp, i, loc, ref>>
+            /\ fired' = fired \cup {"E_Return"}
 
 (* ---- synthetic_trajectory ------------------------------------------------------------------------- *)
 (* traj = -1*np.ones(n_steps, dtype=int); traj[0] = start_state; rng = np.random.default_rng() *)
@@ -648,6 +684,7 @@ J_Enter == /\ pc = "traj"
            /\ loc' = [traj |-> Fix([k \in 1..inp.steps |-> IF k = 1 THEN inp.start ELSE -1]), us |-> <<>>, definite |-> inp.steps]
            /\ i' = 0 /\ pc' = "j_loop"
            /\ UNCHANGED <<inp, out, ref>>
+           /\ fired' = fired \cup {"J_Enter"}
 (* p = T[traj[i], :]; traj[i+1] = rng.choice(states, 1, p=p) -- the generator draws ANY uniform u = k/U *)
 J_Step == /\ pc = "j_loop" /\ i < inp.steps - 1
           /\ \E u \in 0..(inp.U - 1) :
@@ -658,9 +695,11 @@ J_Step == /\ pc = "j_loop" /\ i < inp.steps - 1
                                         THEN MinOf(loc.definite, i + 1) ELSE loc.definite]
           /\ i' = i + 1
           /\ UNCHANGED <<inp, pc, out, ref>>
+          /\ fired' = fired \cup {"J_Step"}
 J_Return == /\ pc = "j_loop" /\ i >= inp.steps - 1
             /\ out' = [traj |-> loc.traj] /\ pc' = "done"
             /\ UNCHANGED <<inp, i, loc, ref>>
+            /\ fired' = fired \cup {"J_Return"}
 
 Next == \/ B_Share \/ B_Draw \/ B_PoolInit \/ B_PoolInitRagged \/ B_Strap \/ B_Return
         \/ I_Enter \/ I_Counts \/ I_Trim \/ I_Build \/ I_EigErr \/ I_Eig \/ I_Times \/ I_Return \/ I_ReturnRagged
@@ -744,7 +783,7 @@ ItsSpectrumLaws == (Mode = "its" /\ pc = "i_times" /\ loc.ev.kind = "rational") 
 ItsTimescaleLaws == (Mode = "its" /\ pc = "its") =>
   \A k \in 1..Len(inp.lags) : \A x \in ref.alts[k] :
      /\ \A j \in 1..Len(x) : x[j].k = "v" =>
-           /\ x[j].lo[1] > 0 /\ x[j].lo[2] > 0 /\ x[j].hi[2] > 0 /\ RLt(x[j].lo, x[j].hi)
+           /\ x[j].lo[1] > 0 /\ x[j].hi[2] > 0 /\ x[j].lo[1] = x[j].hi[1] /\ x[j].lo[2] > x[j].hi[2]   \* lo < hi
            /\ x[j].lo = <<inp.lags[k] * 1000000, TsBounds(1, x[j].lam).lo[2]>>
      /\ \A j \in 1..(Len(x) - 1) : (x[j].k = "v" /\ x[j + 1].k = "v") => RLe(x[j + 1].lam, x[j].lam)
 (* a lag that no trajectory reaches: nothing is counted, the model is zero, no timescale is defined *)
@@ -797,23 +836,25 @@ EmitInv ==
   CASE Mode = "boot" ->
          (Emit /\ Done) =>
            LET cls == IF IsBootRagged(inp) THEN ClsBootRagged ELSE ""
-           IN Open(cls) =>
+           IN IF ~Open(cls) THEN PrintT(<<"BOOTSKIP", ToJson([why |-> cls, fired |-> fired])>>)
+              ELSE
                 PrintT(<<"BOOT", ToJson([rows |-> inp.rows, container |-> inp.container, trials |-> inp.trials,
                                          lag |-> inp.lag, sliding |-> inp.sliding, ns |-> inp.ns,
                                          draws |-> loc.iis, req |-> [pop |-> BN, size |-> BN, replace |-> TRUE],
-                                         res |-> DefBoot(inp, loc.iis), cls |-> cls])>>)
+                                         res |-> DefBoot(inp, loc.iis), cls |-> cls, fired |-> fired])>>)
     [] Mode = "its" ->
-         (Emit /\ pc = "its") =>
+         (Emit /\ Done) =>
            IF ref.det /\ Open(ref.cls)
            THEN PrintT(<<"ITS", ToJson([trajs |-> inp.trajs, lags |-> inp.lags, method |-> inp.method,
                                         sliding |-> inp.sliding, trim |-> inp.trim, ntimes |-> inp.ntimes,
-                                        ns |-> DefNStates(inp), nt |-> ref.nt, rows |-> ref.rows, cls |-> ref.cls])>>)
-           ELSE PrintT(<<"ITSSKIP", ToJson([why |-> IF ref.det THEN ref.cls ELSE "trim-tie"])>>)
+                                        ns |-> DefNStates(inp), nt |-> ref.nt, rows |-> ref.rows, cls |-> ref.cls,
+                                        fired |-> fired])>>)
+           ELSE PrintT(<<"ITSSKIP", ToJson([why |-> IF ref.det THEN ref.cls ELSE "trim-tie", fired |-> fired])>>)
     [] Mode = "ens" ->
          (Emit /\ Done) =>
            PrintT(<<"ENS", ToJson([A |-> inp.A, D |-> inp.D, p0 |-> inp.p0, steps |-> inp.steps, obs |-> inp.obs,
                                    hist |-> ref.hist, final |-> ref.final, forms |-> EnsForms(inp),
-                                   frac |-> EnsFractional(inp)])>>)
+                                   frac |-> EnsFractional(inp), fired |-> fired])>>)
     [] Mode = "traj" ->
          (Emit /\ Done) =>
            LET cls == IF inp.steps >= 2 THEN ClsTrajAssign ELSE ""
@@ -822,7 +863,7 @@ EmitInv ==
                                        definite |-> loc.definite, exact |-> ExactFloats,
                                        req |-> [draws |-> inp.steps - 1, size |-> 1],
                                        containers |-> TrajContainers, cls |-> cls,
-                                       legacy |-> (cls # "" /\ cls \in Gated)])>>)
+                                       legacy |-> (cls # "" /\ cls \in Gated), fired |-> fired])>>)
 
 (* constant-level record, printed once per run: the logarithm table (the driver checks it against the float *)
 (* logarithm: a check of the arithmetic bridge, a failure is a machinery failure)                           *)
